@@ -303,8 +303,30 @@ class Gen:
 
     def gen_for(self, depth):
         r = self.rng
-        kind = r.choice(["for", "each", "loop", "seq", "loop-when", "loop-nested"])
+        kind = r.choice(["for", "each", "loop", "seq", "loop-when", "loop-nested", "for-var-bound", "for-var-bound"])
         self.features.add(kind)
+        if kind == "for-var-bound":
+            # the end bound is a var that the body changes: counting loops evaluate their bounds once, before the first iteration
+            nb, i2 = self.fresh(False), self.fresh(False)
+            k0 = r.choice([3, 4, 5, 6])
+            form = r.choice(["for", "loop", "seq", "loop-down"])
+            step = r.choice([["--", nb], ["set", nb, ["-", nb, 2]], ["++", nb]])
+            if step[0] == "++":
+                # a growing bound would never end if it were re-read: cap it
+                step = ["if", ["<", nb, 40], ["++", nb]]
+            out = [["var", nb, k0]]
+            if form == "for":
+                out.append(["for", i2, 0, nb, ["log", i2], step])
+            elif form == "loop":
+                out.append(["loop", B(i2, K("range"), B(0, nb)), ["log", i2], step])
+            elif form == "loop-down":
+                out.append(["var", nb + "lo", 0])
+                out.append(["loop", B(i2, K("down-to"), B(k0, nb + "lo")), ["log", i2], ["if", ["<", nb + "lo", 3], ["++", nb + "lo"]]])
+            else:
+                out.append(["log", ["length", ["seq", B(i2, K("range"), B(0, nb)), step, i2]]])
+            out.append(["log", nb])
+            self.declare(nb, "var")
+            return out
         i = self.fresh(False)
         self.push()
         self.declare(i, "int")
